@@ -106,6 +106,15 @@ def layout(expr, env=None, src_lens=None):
         sl = expr.slice
         lo = try_const(sl.lower, env) if sl.lower is not None else 0
         hi = try_const(sl.upper, env) if sl.upper is not None else None
+        rel = src_lens.get(("base", expr.value.id)) if isinstance(expr.value, ast.Name) else None
+        if rel is not None and sl.step is None and sl.lower is not None and sl.upper is not None:
+            # a window at a symbolic cursor: ``data[pos + 1 : pos + 4]`` with ("base", "data") -> the linear form of ``pos``
+            from .linear import lin as _lin
+            a, b = _lin(sl.lower, env), _lin(sl.upper, env)
+            if a is not None and b is not None and (a - rel).is_const() and (b - rel).is_const():
+                lo, hi = (a - rel).c, (b - rel).c
+                if 0 <= lo <= hi:
+                    return [("src", expr.value.id, i) for i in range(lo, hi)]
         if sl.step is not None or not isinstance(lo, int) or (hi is not None and not isinstance(hi, int)):
             return None
         base = layout(expr.value, env, src_lens)
